@@ -24,6 +24,15 @@ let run_line (line : string) : unit =
       | "cstate" -> Some (redecode p_cstate e_cstate b)
       | "comparison" -> Some (redecode p_comparison e_comparison b)
       (* B = a counted list of strings in any order; the tag field the model writes for that set *)
+      (* B = the bytes of a folder event log file: the row iterator in both directions (Crash.v: open_kind = identity
+         check + forward scan; open_kind_rev = the backward scan, run only when the identity check passes) *)
+      | "evfile" ->
+        let c8 l = String.concat "," (List.map (fun c -> String.sub (hex_of_string (string_of_bytes c)) 0 8) l) in
+        let firstn n l = List.filteri (fun i _ -> i < n) l in
+        let ident_ok = open_kind KFolder (firstn 4 b) <> None in
+        let fwd = if not ident_ok then "err" else match open_kind KFolder b with Some l -> c8 l | None -> "err" in
+        let rev = if not ident_ok then "err" else match open_kind_rev KFolder b with Some l -> c8 l | None -> "err" in
+        Some (Printf.sprintf "ok fwd=%s rev=%s" fwd rev)
       | "tagset" -> Some (match tagset_reencode b with Some v -> "ok " ^ hex_of_string (string_of_bytes v) | None -> "err")
       | _ -> None (* explored, not modelled *) in
     (match res with Some r -> Printf.printf "%s %s\n" id r | None -> Printf.printf "%s unmodelled\n" id)
